@@ -24,7 +24,6 @@ impl FunctionMarkupPass {
         func: &Rc<Function>,
     ) -> Result<MarkData, Box<CfgError>> {
         let mut defs = RegisterSet::new(); // Registers this function writes to
-        let mut returns = None; // Return instructions in this function
         let mut instructions = vec![];
 
         // Collect all nodes reachable from the entry point first, then visit
@@ -36,7 +35,26 @@ impl FunctionMarkupPass {
             .iter_nexts(Rc::clone(entry))
             .map(|n| n.id())
             .collect::<HashSet<_>>();
-        for node in cfg.iter().filter(|n| reachable.contains(&n.id())) {
+        let ordered = cfg
+            .iter()
+            .filter(|n| reachable.contains(&n.id()))
+            .collect::<Vec<_>>();
+
+        // A return that already is the exit of a function marked earlier
+        // (functions can share code) has to stay a return: rewriting it into
+        // a jump would leave that function with an exit that is not a return.
+        // If this function reaches such a return, it becomes its exit too.
+        let established = |n: &Rc<CfgNode>| {
+            n.is_return()
+                && cfg
+                    .functions()
+                    .values()
+                    .any(|f| !Rc::ptr_eq(f, func) && Rc::ptr_eq(&f.exit(), n))
+        };
+        // Return instructions in this function: the exit once it is known
+        let mut returns = ordered.iter().find(|n| established(n)).cloned();
+
+        for node in ordered {
             // Mark the node as being a part of the given function
             instructions.push(Rc::clone(&node));
             node.insert_function(Rc::clone(func));
@@ -48,9 +66,14 @@ impl FunctionMarkupPass {
 
             // Collect return instructions
             if node.is_return() {
+                let is_exit = returns.as_ref().is_some_and(|r| Rc::ptr_eq(r, &node));
+                if is_exit || (returns.is_some() && established(&node)) {
+                    // This is the exit, or the exit of another function
+                    // that must not be rewritten.
+                }
                 // Set the newly found return to be an jump to the previously
                 // found return.
-                if let Some(ref prev_ret) = returns {
+                else if let Some(ref prev_ret) = returns {
                     let found_ret = Rc::clone(&node);
 
                     // Fix the prevs & nexts of both returns
